@@ -103,7 +103,9 @@ def _case(draw: Any, max_ops: int, max_first: int) -> dict[str, Any]:
     ops.insert(pos, ["start"])
     # a fifth of the generic cases: some streams stamp their samples in a daylight-saving zone and the run crosses the switch
     zones = [draw(st.booleans()) for _ in range(n)] if draw(st.integers(0, 4)) == 0 else None
-    return {"route": route, "n": n, "first": first, "ops": ops, "dst_streams": zones}
+    # string route (resampled receivers): a third of the cases have missing samples, counted as zero
+    none_mask = draw(st.lists(st.booleans(), min_size=11, max_size=11)) if route == "string" and draw(st.integers(0, 2)) == 0 else None
+    return {"route": route, "n": n, "first": first, "ops": ops, "dst_streams": zones, "none_mask": none_mask}
 
 
 def strategy(tier: str, pid: str = "C06") -> st.SearchStrategy[Any]:
@@ -132,7 +134,17 @@ def run_case(case: Any, pid: str) -> Verdict:
     sent = [0] * n
 
     # phases of the 3-phase route: stream i belongs to phase i % 3
+    none_mask = case.get("none_mask") if route == "string" else None
+
+    def missing(i: int, k: int) -> bool:
+        return bool(none_mask) and none_mask[(i * 7 + k * 3) % len(none_mask)]
+
+    if none_mask:
+        v.labels.add("missing_samples_counted_as_zero")
+
     def expected(k: int) -> Any:
+        if none_mask:
+            return sum(_val(i, k) for i in range(n) if not missing(i, k))
         if route == "3phase":
             return tuple(sum(_val(i, k) for i in range(n) if i % 3 == ph) for ph in range(3))
         if route == "nested":
@@ -147,7 +159,7 @@ def run_case(case: Any, pid: str) -> Verdict:
             sub: Any = Broadcast(name="c06-sub")
             keep.append(sub.new_receiver(limit=1000))
             b = ResampledFormulaBuilder("ns", "f", registry, sub.new_sender(), ComponentMetricId.ACTIVE_POWER, Quantity)
-            engine: Any = b.from_string(" + ".join(f"#{i + 1}" for i in range(n)), nones_are_zeros=False)
+            engine: Any = b.from_string(" + ".join(f"#{i + 1}" for i in range(n)), nones_are_zeros=bool(none_mask))
             for i in range(n):
                 name = ComponentMetricRequest("ns", i + 1, ComponentMetricId.ACTIVE_POWER, None).get_channel_name()
                 senders.append(registry.get_or_create(Sample[Quantity], name).new_sender())
@@ -198,7 +210,8 @@ def run_case(case: Any, pid: str) -> Verdict:
                 if sent[i] >= (cap - 1 if not case.get("long_lag") else 200):
                     continue
                 k = first[i] + sent[i]
-                await senders[i].send(Sample((base + timedelta(seconds=k)).astimezone(zone_of[i]), Quantity(_val(i, k))))
+                await senders[i].send(Sample((base + timedelta(seconds=k)).astimezone(zone_of[i]),
+                                             None if missing(i, k) else Quantity(_val(i, k))))
                 sent[i] += 1
             elif op[0] == "settle":
                 await world.settle()
